@@ -439,25 +439,43 @@ def directLocks (evs : List String) : List String :=
 def callees (evs : List String) : List String :=
   evs.filterMap fun e => let (k, m) := splitEvent e; if k == 'C' then some m else none
 
-/-- Mutexes a call of `f` (simple name) may lock, following calls `depth` levels down. -/
+/-- a callee named in an event matches a site: a qualified name (`Parser.Close`) exactly, an
+unqualified one (a plain function) by its simple name -/
+def calleeMatches (site f : String) : Bool :=
+  if f.toList.contains '.' then site == f else simpleName site == f
+
+/-- Mutexes a call of `f` may lock, following calls `depth` levels down. -/
 def locksOfCall (sites : List (String × List String)) : Nat → String → List String
   | 0, _ => []
   | depth + 1, f =>
-    (sites.filter (fun s => simpleName s.1 == f)).flatMap fun s =>
+    (sites.filter (fun s => calleeMatches s.1 f)).flatMap fun s =>
       directLocks s.2 ++ (callees s.2).flatMap (locksOfCall sites depth)
 
-/-- Pairs (held, acquired) along one function's events. -/
-def nestedIn (sites : List (String × List String)) : List String → List String → List (String × String)
-  | [], _ => []
-  | e :: rest, held =>
-    let (k, m) := splitEvent e
-    if k == 'L' then held.map (·, m) ++ nestedIn sites rest (held ++ [m])
-    else if k == 'U' then nestedIn sites rest (held.filter (· != m))
-    else if k == 'R' then nestedIn sites rest []
-    else if k == 'C' then (held.flatMap fun h => (locksOfCall sites 3 m).map (h, ·)) ++ nestedIn sites rest held
-    else nestedIn sites rest held
+def unionL (a b : List String) : List String := a ++ b.filter (fun x => !a.contains x)
+
+/-- Pairs (held, acquired) along one function's events.  `held`: the mutexes that may be held here
+(an over-approximation: after a branch, what was held before it or at its end); `dead`: the rest of
+the current branch is behind a `return`; `stack`: the states at the entries of the enclosing branches.
+A deferred unlock (`D`) releases at the function's end: the mutex stays held. -/
+def nestedIn (sites : List (String × List String)) :
+    List String → List String → Bool → List (List String × Bool) → List (String × String)
+  | [], _, _, _ => []
+  | e :: rest, held, dead, stack =>
+    if e == "{" then nestedIn sites rest held dead ((held, dead) :: stack)
+    else if e == "}" then
+      match stack with
+      | (h0, d0) :: st => nestedIn sites rest (if dead then h0 else unionL h0 held) d0 st
+      | [] => nestedIn sites rest held dead []
+    else if dead then nestedIn sites rest held dead stack
+    else
+      let (k, m) := splitEvent e
+      if k == 'L' then held.map (·, m) ++ nestedIn sites rest (held ++ [m]) dead stack
+      else if k == 'U' then nestedIn sites rest (held.filter (· != m)) dead stack
+      else if k == 'R' then nestedIn sites rest held true stack
+      else if k == 'C' then (held.flatMap fun h => (locksOfCall sites 4 m).map (h, ·)) ++ nestedIn sites rest held dead stack
+      else nestedIn sites rest held dead stack
 
 def allNested (sites : List (String × List String)) : List (String × String) :=
-  sites.flatMap fun s => nestedIn sites s.2 []
+  sites.flatMap fun s => nestedIn sites s.2 [] false []
 
 end VaxisModel.Model.Conc
